@@ -58,6 +58,7 @@ class Rep:
     def __init__(self, path, alternatives):
         self.path = path
         self.alternatives = alternatives  # list[list[piece]]
+        self.first = None  # alternatives of the first iteration when they differ (enumerate loops)
 
     def __repr__(self):
         return f"Rep<{self.path}>{self.alternatives!r}"
@@ -124,6 +125,8 @@ def field_factory(owner_cls, fname, a):
         if el is str or typing.get_origin(el) is typing.Union or (hasattr(el, "__args__") and str in getattr(el, "__args__", ())):
             return lambda st, path: st.alloc(HNodeList(None, path, kind="data"), initial=True)
         ecls = _resolve_cls(el)
+        if fname == "kwargs" and ecls is N.Pair:
+            ecls = N.Keyword  # the parser builds Keyword nodes for filter/test keyword arguments (annotation says Pair)
         kind = kind_of_field(owner_cls, fname, ecls)
         return lambda st, path: st.alloc(HNodeList(ecls, path, kind=kind), initial=True)
     if origin is typing.Union or str(origin) == "<class 'types.UnionType'>" or (args and type(None) in args):
@@ -199,6 +202,8 @@ class Gen:
     def __init__(self, st, buffer=None, generator_cls=None, frame_flags=None, env_fields=None, gen_fields=None):
         env_lazy = {
             "is_async": "bool", "sandboxed": "bool", "optimized": "bool",
+            "filters": lambda s, p: s.alloc(HObj(_FuncMap, path="environment.filters"), initial=True),
+            "tests": lambda s, p: s.alloc(HObj(_FuncMap, path="environment.tests"), initial=True),
             "intercepted_binops": lambda s, p: s.alloc(HSet(dom=z3.Const("intercepted_binops", z3.ArraySort(z3.StringSort(), z3.BoolSort())), size=z3.Int("n_ibo"), kk="str"), initial=True),
             "intercepted_unops": lambda s, p: s.alloc(HSet(dom=z3.Const("intercepted_unops", z3.ArraySort(z3.StringSort(), z3.BoolSort())), size=z3.Int("n_iuo"), kk="str"), initial=True),
         }
@@ -219,12 +224,13 @@ class Gen:
             "_indentation": 0, "extends_so_far": 0, "has_known_extends": False,
             "_context_reference_stack": st.alloc(HList(items=["context"]), initial=True),
             "_assign_stack": st.alloc(HList(items=[]), initial=True), "_param_def_block": st.alloc(HList(items=[]), initial=True),
-            "import_aliases": st.alloc(HDict(items={}), initial=True), "blocks": st.alloc(HDict(items={}), initial=True),
+            "import_aliases": st.alloc(HObj(_NameMap, fields={"prefix": "import_alias"}, path="self.import_aliases"), initial=True),
+            "blocks": st.alloc(HDict(items={}), initial=True),
             "filters": st.alloc(HObj(_NameMap, fields={"prefix": "t_filter"}, path="self.filters"), initial=True),
             "tests": st.alloc(HObj(_NameMap, fields={"prefix": "t_test"}, path="self.tests"), initial=True),
         }
         gf.update(gen_fields or {})
-        self.gen = st.alloc(HObj(generator_cls or C.CodeGenerator, fields=gf, lazy={"defer_init": "bool", "optimizer": lambda s, p: sym("optimizer", "obj")}, path="self"), initial=True)
+        self.gen = st.alloc(HObj(generator_cls or C.CodeGenerator, fields=gf, lazy={"defer_init": "bool", "optimizer": lambda s, p: OptChild(None, "self.optimizer", "optimizer")}, path="self"), initial=True)
         st.ghost["out"] = []
 
 
@@ -237,15 +243,62 @@ class _NameMap:
     pass
 
 
+class _AbsMap:
+    """opaque mapping (symbol table dumps)"""
+    pass
+
+
+class _FuncMap:
+    """environment.filters / environment.tests"""
+    pass
+
+
 def out(st, piece):
     st.ghost["out"] = st.ghost.get("out", []) + [piece]
 
 
 # ------------------------------------------------------------------ specs
 
-def install(I, inline_visitors=True):
+def install(I, inline_visitors=True, modular_signature=True, hole_methods=("visit_Filter", "visit_Call")):
     """Configure an interpreter for emission runs."""
     I.inline.add("*")  # CodeGenerator helpers are inlined: their real bodies run
+
+    if modular_signature:
+        # CodeGenerator.signature is used through its contract (C02.emit.signature / C18.emit.signature prove it on
+        # the real body): it writes ", <args...>" where every visited child sits in argument position
+        def signature_spec(I_, st, args, kwargs, node):
+            self, nd = args[0], args[1]
+            extra = args[3] if len(args) > 3 else kwargs.get("extra_kwargs")
+            h = st.get(nd)
+            hole = Hole(f"signature({h.path})", "signature", None, nd)
+            hole.extra_kwargs = I_.dict_concrete(st, extra, node) if extra is not None else None
+            res = []
+            for s2, _ in I_.call_method(st, self, "write", [""], {}, node):
+                out(s2, hole)
+                res.append((s2, None))
+            return res
+
+        I.specs["CodeGenerator.signature"] = signature_spec
+
+    def direct_visit(name):
+        # direct calls such as self.visit_Filter(node.filter, frame): the callee's emission is a hole
+        # (its own schema is verified as a separate task); the top-level run of that visitor is not affected
+        def h(I_, st, args, kwargs, node):
+            self, child = args[0], args[1]
+            hh = st.get(child)
+            hole = Hole(hh.path, "expr", hh.cls, child)
+            hole.via = name
+            hole.kwargs = dict(kwargs)
+            hole.extra_args = list(args[3:])
+            res = []
+            for s2, _ in I_.call_method(st, self, "write", [""], {}, node):
+                out(s2, hole)
+                res.append((s2, None))
+            return res
+        return h
+
+    for nm in hole_methods or ():
+        I.specs[f"CodeGenerator.{nm}"] = direct_visit(nm)
 
     def stream_write(I_, st, args, kwargs, node):
         out(st, args[1])
@@ -272,7 +325,10 @@ def install(I, inline_visitors=True):
         rest = args[2:]
         if isinstance(child, Ref) and isinstance(st.get(child), HObj):
             h = st.get(child)
-            if getattr(h, "generic", False) or not inline_visitors:
+            inline_ok = inline_visitors is True and (h.path == "node" or issubclass(h.cls, getattr(I_, "emit_inline", (N.Keyword, N.Pair, N.Operand))))
+            if isinstance(inline_visitors, (tuple, list)):
+                inline_ok = h.path == "node" or issubclass(h.cls, tuple(inline_visitors))
+            if getattr(h, "generic", False) or not inline_ok:
                 return emit_hole(I_, st, self, child, h, node)
             cls = h.cls
             gcls = st.get(self).cls
@@ -358,7 +414,8 @@ def install(I, inline_visitors=True):
                         s2 = st.fork()
                         st.get(obj).fields[name] = None
                         st.note(f"{path} is None")
-                        child = make_node(s2, v.cls, path, kind=v.kind)
+                        from jinja2.optimizer import Optimizer as _Opt
+                        child = make_node(s2, v.cls, path, kind=v.kind) if v.cls is not None else s2.alloc(HObj(_Opt, path=path), initial=True)
                         s2.get(obj).fields[name] = child
                         s2.note(f"{path} is present")
                         return [(st, None), (s2, child)]
@@ -466,6 +523,129 @@ def install(I, inline_visitors=True):
     I.specs[("fn", id(any))] = anyall("any")
     I.specs[("fn", id(all))] = anyall("all")
 
+    # AST analyses of the node's subtree are opaque here (they have their own contracts):
+    # find_undeclared returns an unconstrained set of names
+    def find_undeclared_spec(I_, st, args, kwargs, node):
+        dom = z3.Const(fresh_name("undeclared"), z3.ArraySort(z3.StringSort(), z3.BoolSort()))
+        r = st.alloc(HSet(dom=dom, size=z3.Int(fresh_name("n_undeclared")), kk="str"))
+        st.trace.append(Event("call", "find_undeclared", args, kwargs, r, lineno=getattr(node, "lineno", None)))
+        return [(st, r)]
+
+    I.specs[("fn", id(C.find_undeclared))] = find_undeclared_spec
+    I.specs["jinja2.compiler:find_undeclared"] = find_undeclared_spec
+
+    def find_load_spec(I_, st, args, kwargs, node):
+        s2 = st.fork()
+        st.note("symbols.find_load -> None")
+        kind = fresh("load_kind", "str")
+        s2.note("symbols.find_load -> (kind, param)")
+        return [(st, None), (s2, (kind, fresh("load_param", "obj")))]
+
+    I.specs["Symbols.find_load"] = find_load_spec
+
+    import markupsafe
+
+    def markup_spec(I_, st, args, kwargs, node):
+        a = args[0] if args else ""
+        if isinstance(a, Sym) and a.k == "str":
+            return [(st, a.with_tags("markup"))]
+        if isinstance(a, str):
+            return [(st, markupsafe.Markup(a))]
+        if isinstance(a, Sym):
+            return [(st, Sym(models.py_str_obj(a.t), "str", a.tags | {"markup"}))]
+        raise Unsupported("Markup() of a heap value", node)
+
+    I.specs[("fn", id(markupsafe.Markup))] = markup_spec
+
+    def zip_spec(I_, st, args, kwargs, node):
+        hs = [st.heap.get(a.id) if isinstance(a, Ref) else None for a in args]
+        if args and all(isinstance(h, HNodeList) for h in hs):
+            return [(st, st.alloc(HNodeList(None, "zip(" + ",".join(h.path for h in hs) + ")", n=hs[0].n, kind="zip", zipped=hs)))]
+        cols = [I_.iter_concrete(st, a, node) for a in args]
+        return [(st, tuple(zip(*cols)))]
+
+    I.specs[("fn", id(zip))] = zip_spec
+
+    # symbol-table dumps: an opaque mapping; text built from it is an opaque string piece
+    def dump_spec(name):
+        def h(I_, st, args, kwargs, node):
+            r = st.alloc(HObj(_AbsMap, fields={"desc": f"symbols.{name}()"}, path=f"symbols.{name}()"))
+            st.trace.append(Event("call", f"symbols.{name}", args[1:], kwargs, r, lineno=getattr(node, "lineno", None)))
+            return [(st, r)]
+        return h
+
+    for nm in ("dump_stores", "dump_param_targets"):
+        I.specs[f"Symbols.{nm}"] = dump_spec(nm)
+
+    def absmap_iter(I_, st, args, kwargs, node):
+        return [(st, AbsIter(st.get(args[0]).fields["desc"], None))]
+
+    for nm in ("items", "keys", "values", "__iter__"):
+        I.specs[f"_AbsMap.{nm}"] = absmap_iter
+
+    def join_abstract(I_, st, args, kwargs, node):
+        it = args[1]
+        return [(st, sym("join(" + it.desc + ")", "str", tags={"opaque_text", it.desc}))]
+
+    I.specs["join_abstract"] = join_abstract
+
+    # environment.filters / environment.tests: name -> function or None
+    def funcmap_get(I_, st, args, kwargs, node):
+        s2 = st.fork()
+        st.note("filter/test unknown at compile time")
+        s2.note("filter/test known")
+        return [(st, None), (s2, fresh("filter_func", "obj", tags={"filter_func"}))]
+
+    I.specs["_FuncMap.get"] = funcmap_get
+
+    from jinja2.utils import _PassArg
+
+    def from_obj_spec(I_, st, args, kwargs, node):
+        outs = []
+        for v in (None, _PassArg.context, _PassArg.eval_context, _PassArg.environment):
+            s = st.fork()
+            s.note(f"pass_arg={v}")
+            outs.append((s, v))
+        return outs
+
+    I.specs["jinja2.utils:_PassArg.from_obj"] = from_obj_spec
+
+    def optimizer_visit(I_, st, args, kwargs, node):
+        # Optimizer.visit (contract C08.optimizer): returns the node itself when as_const is Impossible,
+        # else a fresh Const node
+        nd = args[1]
+        s2 = st.fork()
+        st.note("optimizer: not foldable")
+        c = make_node(s2, N.Const, "folded_const")
+        s2.get(c).generic = True
+        s2.note("optimizer: folded to Const")
+        return [(st, nd), (s2, c)]
+
+    I.specs["Optimizer.visit"] = optimizer_visit
+
+    def method_obj(I_, st, args, kwargs, node):
+        o, name = args[0], args[1]
+        if name in ("startswith", "endswith", "isidentifier"):
+            return [(st, fresh(f"{o.t}.{name}", "bool"))]
+        return None
+
+    I.specs["method_obj"] = method_obj
+
+    def getattr_obj(I_, st, args, kwargs, node):
+        o, name = args
+        if name in ("startswith", "endswith", "isidentifier"):
+            return [(st, BoundMethod(o, name))]
+        return None
+
+    I.specs["getattr_obj"] = getattr_obj
+
+    def unpack_spec(I_, st, v, n, node):
+        if isinstance(v, Sym) and v.k == "obj":
+            return [sym(f"{v.t}[{i}]", "str") for i in range(n)]
+        return None
+
+    I.specs["unpack"] = unpack_spec
+
     def fail_spec(I_, st, args, kwargs, node):
         from jinja2.exceptions import TemplateAssertionError
         e = Exc(TemplateAssertionError, tuple(args[1:]), origin=getattr(node, "lineno", None))
@@ -485,18 +665,31 @@ def emit_hole(I, st, self, child, h, node):
                 out(s2, hole)
                 res.append((s2, None))
         return res
-    out(st, hole)
-    return [(st, None)]
+    # an expression written by the child flushes the pending newline/indentation first
+    res = []
+    for s2, v2 in I.call_method(st, self, "write", [""], {}, node):
+        out(s2, hole)
+        res.append((s2, None))
+    return res
+
+
+# line/debug bookkeeping of the generator: counters that grow with every statement written; they do
+# not influence the emitted text and are havoced by loops over abstract children
+BOOKKEEPING = {"code_lineno", "_last_line", "_write_debug_info", "debug_info"}
 
 
 def _fingerprint(st, fr, skip=(), ids=None):
     loc = tuple(sorted((k, repr(v)) for k, v in st.frames[fr.fid].items() if k not in skip))
     heap = []
+    dbg = set()
+    for i, h in st.heap.items():
+        if isinstance(h, HObj) and isinstance(h.fields.get("debug_info"), Ref):
+            dbg.add(h.fields["debug_info"].id)
     for i, h in sorted(st.heap.items()):
-        if ids is not None and i not in ids:
+        if (ids is not None and i not in ids) or i in dbg:
             continue
         if isinstance(h, HObj):
-            heap.append((i, tuple(sorted((k, repr(v)) for k, v in h.fields.items()))))
+            heap.append((i, tuple(sorted((k, repr(v)) for k, v in h.fields.items() if k not in BOOKKEEPING))))
         elif isinstance(h, HList) and h.concrete:
             heap.append((i, tuple(repr(x) for x in h.items)))
         elif isinstance(h, HDict) and h.concrete:
@@ -516,17 +709,19 @@ def for_abstract(I, n, st, fr, itv):
         raise Unsupported("for-else over abstract child list", n)
     targets = {x.id for x in ast.walk(n.target) if isinstance(x, ast.Name)}
 
-    def run_body(s0, tag):
+    def run_body(s0, tag, idx_mode=None):
         s = s0.fork()
         s.ghost = dict(s.ghost)
         s.ghost["out"] = []
-        if hl.elem_cls is None:
+        if hl.zipped:
+            elem = tuple((make_node(s, z.elem_cls, f"{z.path}[{tag}]", kind=z.kind) if z.elem_cls is not None else sym(f"{z.path}[{tag}]", "obj")) for z in hl.zipped)
+        elif hl.elem_cls is None:
             elem = sym(f"{hl.path}[{tag}]", "obj")
         else:
             elem = make_node(s, hl.elem_cls, f"{hl.path}[{tag}]", kind=hl.kind)
         item = (sym(f"{hl.path}.idx[{tag}]", "int"), elem) if hl.enum else elem
         if hl.enum:
-            s.assume(item[0].t >= 0)
+            s.assume(item[0].t == 0 if idx_mode == "first" else (item[0].t >= 1 if idx_mode == "rest" else item[0].t >= 0))
         outs = []
         for s2, r in I.assign(n.target, item, s, fr):
             if isinstance(r, Raised):
@@ -535,10 +730,29 @@ def for_abstract(I, n, st, fr, itv):
             outs.extend(I.exec_block(n.body, s2, fr))
         return outs
 
-    first = run_body(st, "*")
+    first = run_body(st, "*", "first" if hl.enum else None)
     results = []
     alts = []
     ends = []
+    first_alts = None
+    if hl.enum:
+        # enumerate(): the first iteration (index 0) and the later ones (index >= 1) are summarised separately
+        first_alts, first_ends = [], []
+        for s, c in first:
+            pieces = list(s.ghost.get("out", []))
+            if c.kind in ("ok", "continue"):
+                first_alts.append(pieces)
+                first_ends.append(s)
+            elif c.kind == "raise":
+                s.ghost = dict(s.ghost)
+                s.ghost["out"] = list(st.ghost.get("out", [])) + pieces
+                results.append((s, c))
+            else:
+                raise Unsupported(f"{c.kind} inside a loop over abstract children", n)
+        first = []
+        for s in first_ends:
+            first += run_body(s, "+", "rest")
+        ends += first_ends
     for s, c in first:
         pieces = list(s.ghost.get("out", []))
         if c.kind in ("ok", "continue"):
@@ -554,7 +768,7 @@ def for_abstract(I, n, st, fr, itv):
     ids = set(st.heap)
     fps = {_fingerprint(s, fr, targets, ids) for s in ends}
     for s in ends:
-        for s2, c2 in run_body(s, "**"):
+        for s2, c2 in run_body(s, "**", "rest" if hl.enum else None):
             if c2.kind in ("ok", "continue") and _fingerprint(s2, fr, targets, ids) not in fps:
                 raise Unsupported("effects of a loop body over abstract children are not idempotent", n)
     # zero iterations
@@ -562,8 +776,13 @@ def for_abstract(I, n, st, fr, itv):
     s0.assume(hl.n == 0)
     results.append((s0, OK))
     rep = Rep(hl.path, alts)
+    rep.first = first_alts
     for s in ends:
         s.assume(hl.n >= 1)
+        for h in s.heap.values():
+            if isinstance(h, HObj) and "code_lineno" in h.fields:
+                h.fields["code_lineno"] = fresh("code_lineno", "int")
+                h.fields["_last_line"] = fresh("last_line", "int")
         s.ghost = dict(s.ghost)
         s.ghost["out"] = list(st.ghost.get("out", [])) + [rep]
         results.append((s, OK))
@@ -593,8 +812,9 @@ class Schema:
     def holds(self, term):
         return check_sat(self.pc + [z3.Not(term)], 2000, 0, use_cvc5=False).status == "unsat"
 
-    def texts(self, reps=(0, 1, 2)):
-        """all instantiations of the repetitions: list of (text, placeholder map)"""
+    def texts(self, reps=(1, 2, 3)):
+        """all instantiations of the repetitions: list of (text, placeholder map).  A Rep piece is only
+        present on paths with at least one iteration (zero iterations is a separate path without it)."""
         out_ = []
         for k in reps:
             ph = {}
@@ -630,12 +850,20 @@ def _render(pieces, k, ph):
         if isinstance(p, str):
             parts.append(p)
         elif isinstance(p, Hole):
-            name = f"__H{len(ph)}__" if p.kind == "expr" else f"__S{len(ph)}__"
-            ph[name] = p
-            parts.append(name)
+            if p.kind == "signature":
+                # summary of CodeGenerator.signature(node, frame, extra_kwargs): a leading-comma argument tail
+                name = f"__H{len(ph)}__"
+                ph[name] = p
+                parts.append(f", *{name}")
+            else:
+                name = f"__H{len(ph)}__" if p.kind == "expr" else f"__S{len(ph)}__"
+                ph[name] = p
+                parts.append(name)
         elif isinstance(p, Rep):
             for i in range(k):
                 alt = p.alternatives[i % len(p.alternatives)] if p.alternatives else []
+                if i == 0 and getattr(p, "first", None):
+                    alt = p.first[0]
                 parts.append(_render(alt, k, ph))
         elif isinstance(p, Sym):
             parts.append(_render_term(p.t, ph, p))
@@ -677,12 +905,13 @@ def _render_term(t, ph, symv):
 
 
 def run_visitor(method_qualname, node_cls, buffer=None, generator_cls=None, node_fields=None, configure=None,
-                extra_args=(), pre=None, env_fields=None, frame_flags=None, gen_fields=None, extra_kwargs=None):
+                extra_args=(), pre=None, env_fields=None, frame_flags=None, gen_fields=None, extra_kwargs=None,
+                install_opts=None):
     """Symbolically execute CodeGenerator.<method>(node, frame) -> list[Schema]."""
     from .engine import Interp
     from . import extract
     I = Interp()
-    install(I)
+    install(I, **(install_opts or {}))
     if configure:
         configure(I)
     st = State()
